@@ -207,14 +207,15 @@ static void put_bits(unsigned pos, unsigned val, unsigned n)
 }
 void harness_long(void)
 {
-	INPUT(u32, tstate); INPUT(u32, remaining);
+	INPUT(u32, remaining);
+	const unsigned tstate = PM2_REBUILD_BUILD3;   /* concrete, or the start-of-stream branch makes the bit cursor symbolic */
 	LHAPM2Decoder d0;
 	u8 out[OUTPUT_BUFFER_SIZE];
 	const unsigned c = LC, pos0 = LPOS, skip = 3;
 	const unsigned lbits = c <= 19 ? pm2_ref_len_class[c <= 19 ? c - 15 : 0].bits : 0;
 	unsigned i, cur, len, off, d;
 	size_t n;
-	ASSUME(tstate >= 1 && tstate <= 4 && remaining >= 1 && remaining <= 4096);
+	ASSUME(remaining >= 1 && remaining <= 4096);
 	bs_bits = 8 * BS_N; bs_pos = skip;
 	put_bits(skip, LX, lbits);
 	if (c != 20) put_bits(skip + lbits, LV, LT == 0 ? 6 : LT + 5);
